@@ -35,6 +35,7 @@ import (
 func init() {
 	zerolog.SetGlobalLevel(zerolog.Disabled)
 	logging.SetComponentLevel("", true, zerolog.Disabled)
+	db.SetDefaultDbName("mmmbbb")
 }
 
 // Env is one case's world.
